@@ -51,7 +51,7 @@ func (c *Caser) Identifierize(s string) string {
 
 	rIdent := []rune(ident)
 	if len(rIdent) > 0 {
-		if !unicode.IsLetter(rIdent[0]) || isNotCaseSensitiveLetter(rIdent[0]) {
+		if !unicode.IsUpper(rIdent[0]) {
 			ident = "A" + ident
 		}
 	}
